@@ -840,6 +840,8 @@ static int conf_replace_value(struct conf_node_base *target_, struct conf_node_b
             source = ENCLOSING_STRUCT(source_, struct conf_node_inaddr, base);
             target->hostname = source->hostname;
             target->service = source->service;
+            source->hostname = NULL;
+            source->service = NULL;
         } else {
             target->hostname = NULL;
             target->service = NULL;
